@@ -136,6 +136,29 @@ func (o *Object) compress() (bytes.Buffer, error) {
 	return b, nil
 }
 
+// WriteFileAtomic replaces the file at path with data. The data is written to tmpPath first and then
+// renamed over path, so that an interrupted or failed write never leaves path truncated or half-written.
+func WriteFileAtomic(path, tmpPath string, data []byte) error {
+	f, err := os.Create(tmpPath)
+	if err != nil {
+		return err
+	}
+	if _, err := f.Write(data); err != nil {
+		f.Close()
+		os.Remove(tmpPath)
+		return err
+	}
+	if err := f.Close(); err != nil {
+		os.Remove(tmpPath)
+		return err
+	}
+	if err := os.Rename(tmpPath, path); err != nil {
+		os.Remove(tmpPath)
+		return err
+	}
+	return nil
+}
+
 func (o *Object) Write(rootGoitPath string) error {
 	buf, err := o.compress()
 	if err != nil {
@@ -149,12 +172,8 @@ func (o *Object) Write(rootGoitPath string) error {
 			return fmt.Errorf("%w: %s", ErrIOHandling, dirPath)
 		}
 	}
-	f, err := os.Create(filePath)
-	if err != nil {
-		return fmt.Errorf("%w: %s", ErrIOHandling, filePath)
-	}
-	defer f.Close()
-	if _, err := f.Write(buf.Bytes()); err != nil {
+	tmpPath := filepath.Join(rootGoitPath, "objects", "tmp_obj")
+	if err := WriteFileAtomic(filePath, tmpPath, buf.Bytes()); err != nil {
 		return fmt.Errorf("%w: %s", ErrIOHandling, filePath)
 	}
 	return nil
